@@ -405,3 +405,506 @@ Section StrainGlobal3.
     rewrite gather_affine3 by exact He. apply strain3_affine_novoigt; assumption.
   Qed.
 End StrainGlobal3.
+
+(* ================================================================== shapes of the operator arrays *)
+Lemma voigt_scale_rows n d (B : list (list R)) :
+  Forall (fun r => length r = n) B -> Forall (fun r => length r = n) (voigt_scale d B).
+Proof.
+  intros HB. unfold voigt_scale. apply Forall_forall. intros r Hr. apply in_map_iff in Hr as (row & <- & Hin).
+  rewrite Forall_forall in HB. destruct (Nat.eqb _ _); [rewrite map_length|]; apply HB; exact Hin.
+Qed.
+
+Lemma strain_Bavg_shape2 (s3 hx hy hz : R) : mshape 3 8 (strain_Bavg s3 2 [hx; hy; hz]).
+Proof.
+  unfold strain_Bavg. cbn [node_numbering Z.of_nat Pos.of_succ_nat Pos.succ Z.eqb Pos.eqb].
+  apply (fold_madd_shape 3 8 (fun n => mscale _ (B_at 2 [hx; hy; hz] (gauss_pos s3 [hx; hy; hz] n)))).
+  - apply mscale_shape. destruct (B_shape2 hx hy hz (gauss_pos s3 [hx; hy; hz] (-1, -1, -1)%Z)) as [A B]. split; assumption.
+  - intros n _. apply mscale_shape. destruct (B_shape2 hx hy hz (gauss_pos s3 [hx; hy; hz] n)) as [A B]. split; assumption.
+Qed.
+
+Lemma strain_Bavg_shape3 (s3 hx hy hz : R) : mshape 6 24 (strain_Bavg s3 3 [hx; hy; hz]).
+Proof.
+  unfold strain_Bavg. cbn [node_numbering Z.of_nat Pos.of_succ_nat Pos.succ Z.eqb Pos.eqb].
+  apply (fold_madd_shape 6 24 (fun n => mscale _ (B_at 3 [hx; hy; hz] (gauss_pos s3 [hx; hy; hz] n)))).
+  - apply mscale_shape. destruct (B_shape3 hx hy hz (gauss_pos s3 [hx; hy; hz] (-1, -1, -1)%Z)) as [A B]. split; assumption.
+  - intros n _. apply mscale_shape. destruct (B_shape3 hx hy hz (gauss_pos s3 [hx; hy; hz] n)) as [A B]. split; assumption.
+Qed.
+
+Lemma strain_B_rows2 (s3 hx hy hz : R) v : Forall (fun r => length r = 8%nat) (strain_B s3 2 [hx; hy; hz] v).
+Proof.
+  unfold strain_B. destruct v; [apply voigt_scale_rows|]; apply (strain_Bavg_shape2 s3 hx hy hz).
+Qed.
+
+Lemma strain_B_rows3 (s3 hx hy hz : R) v : Forall (fun r => length r = 24%nat) (strain_B s3 3 [hx; hy; hz] v).
+Proof.
+  unfold strain_B. destruct v; [apply voigt_scale_rows|]; apply (strain_Bavg_shape3 s3 hx hy hz).
+Qed.
+
+(* ---- Stress = D @ Strain(voigt=True), for ANY nodal vector of the element ---- *)
+Lemma stress2_is_D_strain (s3 hx hy hz E nu : R) mode v :
+  mvmul (stress_B s3 2 [hx; hy; hz] E nu mode) v
+  = mvmul (material_D 2 [hx; hy; hz] E nu mode) (mvmul (strain_B s3 2 [hx; hy; hz] true) v).
+Proof. unfold stress_B. apply (mvmul_mmul RthR 8). apply strain_B_rows2. Qed.
+
+Lemma stress3_is_D_strain (s3 hx hy hz E nu : R) mode v :
+  mvmul (stress_B s3 3 [hx; hy; hz] E nu mode) v
+  = mvmul (material_D 3 [hx; hy; hz] E nu mode) (mvmul (strain_B s3 3 [hx; hy; hz] true) v).
+Proof. unfold stress_B. apply (mvmul_mmul RthR 24). apply strain_B_rows3. Qed.
+
+(* on affine fields: sigma = D . (G11, G22, 2(G12+G21)) — the doubled shear is inherited *)
+Theorem stress2_global g (s3 hx hy hz E nu : R) mode g11 g12 g21 g22 c1 c2 :
+  wf g -> nelz g = 0%Z -> s3 <> 0 -> hx <> 0 -> hy <> 0 ->
+  eo_response g (stress_opmat s3 2 [hx; hy; hz] E nu mode) (nodal_field g 2 (affine_field2 g hx hy g11 g12 g21 g22 c1 c2))
+  = map (fun v => repeat v (Z.to_nat (nel g)))
+        (mvmul (material_D 2 [hx; hy; hz] E nu mode) [g11; g22; 2 * (g12 + g21)]).
+Proof.
+  intros Hwf H2d Hs Hx Hy. unfold eo_response. rewrite eo_ndof_field by (auto; lia).
+  replace (eo_effective g (stress_opmat s3 2 [hx; hy; hz] E nu mode) 2) with (stress_opmat s3 2 [hx; hy; hz] E nu mode)
+    by (unfold eo_effective, stress_opmat; cbn [om_kd]; rewrite (elemnodes_2d g Hwf H2d); reflexivity).
+  cbn [om_rows stress_opmat].
+  rewrite <- (dofconn_all_length g 2). apply op_fwd_const; [apply dofconn_all_nonempty; exact Hwf|].
+  intros dce Hin. unfold dofconn_all in Hin. apply in_map_iff in Hin as (e & <- & He). apply in_zrange in He.
+  rewrite stress2_is_D_strain, (gather_affine2 g hx hy hz Hwf H2d) by exact He.
+  rewrite strain2_affine_voigt by assumption. reflexivity.
+Qed.
+
+Theorem stress3_global g (s3 hx hy hz E nu : R) mode g11 g12 g13 g21 g22 g23 g31 g32 g33 c1 c2 c3 :
+  wf g -> nelz g <> 0%Z -> s3 <> 0 -> hx <> 0 -> hy <> 0 -> hz <> 0 ->
+  eo_response g (stress_opmat s3 3 [hx; hy; hz] E nu mode)
+              (nodal_field g 3 (affine_field3 g hx hy hz g11 g12 g13 g21 g22 g23 g31 g32 g33 c1 c2 c3))
+  = map (fun v => repeat v (Z.to_nat (nel g)))
+        (mvmul (material_D 3 [hx; hy; hz] E nu mode) [g11; g22; g33; 2 * (g23 + g32); 2 * (g13 + g31); 2 * (g12 + g21)]).
+Proof.
+  intros Hwf H3d Hs Hx Hy Hz. unfold eo_response. rewrite eo_ndof_field by (auto; lia).
+  replace (eo_effective g (stress_opmat s3 3 [hx; hy; hz] E nu mode) 3) with (stress_opmat s3 3 [hx; hy; hz] E nu mode)
+    by (unfold eo_effective, stress_opmat; cbn [om_kd]; rewrite (elemnodes_3d g Hwf H3d); reflexivity).
+  cbn [om_rows stress_opmat].
+  rewrite <- (dofconn_all_length g 3). apply op_fwd_const; [apply dofconn_all_nonempty; exact Hwf|].
+  intros dce Hin. unfold dofconn_all in Hin. apply in_map_iff in Hin as (e & <- & He). apply in_zrange in He.
+  rewrite stress3_is_D_strain, (gather_affine3 g hx hy hz Hwf H3d) by exact He.
+  rewrite strain3_affine_voigt by assumption. reflexivity.
+Qed.
+
+(* ---- ElementAverage ---- *)
+Lemma average2_centroid (hx hy hz c0 gx gy : R) : hx <> 0 -> hy <> 0 ->
+  dot (shape_fun 2 [hx; hy; hz] [0; 0; 0]) (linfield2 [hx; hy; hz] c0 gx gy) = c0.
+Proof. intros. unfold linfield2, dot, nodepos. shape_unfold. field; auto. Qed.
+
+Lemma average3_centroid (hx hy hz c0 gx gy gz : R) : hx <> 0 -> hy <> 0 -> hz <> 0 ->
+  dot (shape_fun 3 [hx; hy; hz] [0; 0; 0]) (linfield3 [hx; hy; hz] c0 gx gy gz) = c0.
+Proof. intros. unfold linfield3, dot, nodepos. shape_unfold. field; auto. Qed.
+
+(* the output in element e is the value of the linear field at the centroid of e *)
+Theorem average2_global g (hx hy hz c0 gx gy : R) : wf g -> nelz g = 0%Z -> hx <> 0 -> hy <> 0 ->
+  eo_response g (average_opmat 2 [hx; hy; hz]) (nodal_field g 1 (lin_field2 g hx hy c0 gx gy))
+  = [map (fun e => c0 + gx * (hx * (IZR (elem_i g e) + 1 / 2)) + gy * (hy * (IZR (elem_j g e) + 1 / 2))) (zrange (nel g))].
+Proof.
+  intros Hwf H2d Hx Hy. unfold eo_response. rewrite eo_ndof_field by (auto; lia).
+  replace (eo_effective g (average_opmat 2 [hx; hy; hz]) 1) with (average_opmat 2 [hx; hy; hz])
+    by (unfold eo_effective, average_opmat; cbn [om_kd]; rewrite (elemnodes_2d g Hwf H2d); reflexivity).
+  cbn [om_rows average_opmat].
+  unfold op_fwd, dofconn_all. cbn [map]. f_equal. rewrite map_map. apply map_ext_in. intros e He. apply in_zrange in He.
+  rewrite (gather_lin2 g hx hy hz Hwf H2d) by exact He. apply average2_centroid; assumption.
+Qed.
+
+Theorem average3_global g (hx hy hz c0 gx gy gz : R) : wf g -> nelz g <> 0%Z -> hx <> 0 -> hy <> 0 -> hz <> 0 ->
+  eo_response g (average_opmat 3 [hx; hy; hz]) (nodal_field g 1 (lin_field3 g hx hy hz c0 gx gy gz))
+  = [map (fun e => c0 + gx * (hx * (IZR (elem_i g e) + 1 / 2)) + gy * (hy * (IZR (elem_j g e) + 1 / 2))
+                      + gz * (hz * (IZR (elem_k g e) + 1 / 2))) (zrange (nel g))].
+Proof.
+  intros Hwf H3d Hx Hy Hz. unfold eo_response. rewrite eo_ndof_field by (auto; lia).
+  replace (eo_effective g (average_opmat 3 [hx; hy; hz]) 1) with (average_opmat 3 [hx; hy; hz])
+    by (unfold eo_effective, average_opmat; cbn [om_kd]; rewrite (elemnodes_3d g Hwf H3d); reflexivity).
+  cbn [om_rows average_opmat].
+  unfold op_fwd, dofconn_all. cbn [map]. f_equal. rewrite map_map. apply map_ext_in. intros e He. apply in_zrange in He.
+  rewrite (gather_lin3 g hx hy hz Hwf H3d) by exact He. apply average3_centroid; assumption.
+Qed.
+
+(* ================================================================== NodalOperation is the transpose of ElementOperation *)
+Theorem eo_no_adjoint g (em : @opmat R) ndof (X : list (list R)) (u : list R) :
+  wf g -> (1 <= ndof)%Z -> om_kd em = (elemnodes g * ndof)%Z ->
+  Forall (fun r => length r = Z.to_nat (om_kd em)) (om_rows em) ->
+  length u = Z.to_nat (ndof * nnodes g) ->
+  length X = length (om_rows em) -> Forall (fun w => length w = Z.to_nat (nel g)) X ->
+  mdot X (eo_response g em u) = dot (no_response g em X) u.
+Proof.
+  intros Hwf Hn Hkd Hrows Hu HX HXl.
+  pose proof (nnodes_pos g Hwf) as Hp.
+  assert (Hen : (0 < elemnodes g)%Z) by (unfold elemnodes; apply Z.pow_pos_nonneg; [lia | rewrite (dim_wf g Hwf); destruct (Z.eqb (nelz g) 0); lia]).
+  unfold eo_response, no_response.
+  assert (E1 : eo_ndof g (Z.of_nat (length u)) = ndof).
+  { unfold eo_ndof. rewrite Hu, Z2Nat.id by nia. apply Z.div_mul. lia. }
+  assert (E2 : no_ndof g em = ndof).
+  { unfold no_ndof. rewrite Hkd, Z.mul_comm. apply Z.div_mul. lia. }
+  rewrite E1, E2. unfold eo_effective. rewrite Hkd, Z.eqb_refl. rewrite <- Hkd.
+  apply (op_adjoint RthR); try assumption.
+  - rewrite dofconn_all_length. exact HXl.
+  - pose proof (dofconn_all_range g ndof Hwf ltac:(lia)) as Hr. unfold asm_n in Hr.
+    eapply Forall_impl; [|exact Hr]. intros row Hrow. eapply Forall_impl; [|exact Hrow]. intros v Hv. cbn beta in Hv. lia.
+Qed.
+
+(* ================================================================== ThermoMechanical *)
+Lemma dot_allz_l (a v : list R) : allz a -> dot a v = 0.
+Proof. intros Ha. rewrite (dot_comm RthR). apply (dot_allz_r RthR). exact Ha. Qed.
+
+Lemma dot_fold_vadd {A} m (t : A -> list R) l v0 r :
+  (forall a, length (t a) = m) -> length v0 = m ->
+  dot (fold_left (fun acc a => vadd acc (t a)) l v0) r = dot v0 r + nsum (map (fun a => dot (t a) r) l).
+Proof.
+  intros Ht. revert v0. induction l as [|a l IH]; intros v0 H0; cbn [fold_left map].
+  - cbn. lra.
+  - rewrite IH by (rewrite vadd_length; rewrite ?Ht; auto). rewrite (dot_vadd_l RthR) by (rewrite Ht; exact H0).
+    rewrite nsum_cons. rnum. lra.
+Qed.
+
+Lemma mvmul_vscale_r (M : list (list R)) c v : mvmul M (vscale c v) = vscale c (mvmul M v).
+Proof.
+  unfold mvmul, vscale at 2. rewrite map_map. apply map_ext. intros r. apply (dot_vscale_r RthR).
+Qed.
+
+Lemma vscale_vadd c (a b : list R) : vscale c (vadd a b) = vadd (vscale c a) (vscale c b).
+Proof.
+  revert b; induction a as [|x a IH]; intros [|y b]; try reflexivity.
+  unfold vscale, vadd in *. cbn [combine map fst snd]. f_equal; [rnum; lra | apply IH].
+Qed.
+
+Lemma fold_vadd_vscale {A} c (t : A -> list R) l v0 :
+  vscale c (fold_left (fun acc a => vadd acc (t a)) l v0) = fold_left (fun acc a => vadd acc (vscale c (t a))) l (vscale c v0).
+Proof.
+  revert v0. induction l as [|a l IH]; intros v0; cbn [fold_left]; [reflexivity|]. rewrite IH, vscale_vadd. reflexivity.
+Qed.
+
+Lemma fold_madd_mvmul {A} m n (f : A -> list (list R)) l M0 u :
+  mshape m n M0 -> (forall a, In a l -> mshape m n (f a)) ->
+  mvmul (fold_left (fun M a => madd M (f a)) l M0) u = fold_left (fun v a => vadd v (mvmul (f a) u)) l (mvmul M0 u).
+Proof.
+  revert M0. induction l as [|a l IH]; intros M0 H0 Hf; cbn [fold_left]; [reflexivity|].
+  assert (Ha : mshape m n (f a)) by (apply Hf; left; reflexivity).
+  rewrite IH; [| apply madd_shape; assumption | intros; apply Hf; right; assumption].
+  rewrite (mvmul_madd RthR) by (eapply mshape_Forall2; eassumption). reflexivity.
+Qed.
+
+Lemma fold_left_ext_in {A B} (f g : B -> A -> B) l b0 : (forall b a, In a l -> f b a = g b a) -> fold_left f l b0 = fold_left g l b0.
+Proof.
+  revert b0. induction l as [|a l IH]; intros b0 E; cbn [fold_left]; [reflexivity|].
+  rewrite E by (left; reflexivity). apply IH. intros; apply E; right; assumption.
+Qed.
+
+Section Thermo.
+  Variables (s3 : R) (d : nat) (h : list R) (E nu : R) (mode : Z).
+  Let nd := eldofs d.
+  Let ns := nstrain d.
+  Let D := material_D d h E nu mode.
+  Let Bn (n : Z * Z * Z) := B_at d h (gauss_pos s3 h n).
+  Let tn (n : Z * Z * Z) := mvmul (mmul ns (mscale (gauss_w d h) (mtrans nd (Bn n))) D) (thermo_phi d).
+  Hypothesis HB : forall n, In n (node_numbering (Z.of_nat d)) -> Forall (fun r => length r = nd) (Bn n) /\ length (Bn n) = ns.
+  Hypothesis HD : Forall (fun r => length r = ns) D.
+
+  Lemma tn_length n : length (tn n) = nd.
+  Proof. unfold tn, mmul, mscale, mtrans. rewrite mvmul_length, !map_length, seq_length. reflexivity. Qed.
+
+  Lemma BDPhi_length : length (thermo_BDPhi s3 d h E nu mode) = nd.
+  Proof.
+    unfold thermo_BDPhi. fold nd ns D. generalize (node_numbering (Z.of_nat d)). intros l.
+    assert (Hgen : forall v0, length v0 = nd -> length (fold_left (fun acc n => vadd acc (tn n)) l v0) = nd).
+    { induction l as [|n l IH]; intros v0 H0; cbn [fold_left]; [exact H0|].
+      apply IH. rewrite vadd_length; rewrite ?tn_length; auto. }
+    apply Hgen. apply vzero_length.
+  Qed.
+
+  (* a field annihilated by B at every Gauss point does no work against the thermal load *)
+  Lemma BDPhi_dot_null r :
+    (forall n, In n (node_numbering (Z.of_nat d)) -> allz (mvmul (Bn n) r)) ->
+    dot (thermo_BDPhi s3 d h E nu mode) r = 0.
+  Proof.
+    intros Hr. unfold thermo_BDPhi. fold nd ns D.
+    rewrite (dot_fold_vadd nd tn) by (try apply tn_length; apply vzero_length).
+    rewrite (dot_vzero_l RthR). rnum. rewrite Rplus_0_l.
+    rewrite (nsum_map_ext _ (fun _ => 0)); [apply (nsum_map_zero RthR)|].
+    intros n Hn. unfold tn. rewrite (mvmul_mmul RthR ns) by exact HD.
+    rewrite (mvmul_mscale RthR), (dot_comm RthR), (dot_vscale_r RthR), (dot_mtrans RthR nd) by (apply HB; exact Hn).
+    rewrite dot_allz_l by (apply Hr; exact Hn). rnum. lra.
+  Qed.
+
+  (* K_e u = alpha * BDPhi whenever B u = alpha * Phi at every Gauss point *)
+  Lemma K_expansion u alpha :
+    (forall n, In n (node_numbering (Z.of_nat d)) -> mvmul (Bn n) u = vscale alpha (thermo_phi d)) ->
+    mvmul (stiffness_element s3 d h E nu mode) u = vscale alpha (thermo_BDPhi s3 d h E nu mode).
+  Proof.
+    intros Hu. unfold stiffness_element, thermo_BDPhi. fold nd ns D.
+    rewrite (fold_madd_mvmul nd nd (fun n => BtDB d (gauss_w d h) (Bn n) D)).
+    - rewrite (mvmul_mzero RthR), fold_vadd_vscale, (vscale_vzero RthR).
+      apply fold_left_ext_in. intros v n Hn. f_equal. unfold BtDB. fold nd ns.
+      rewrite (mvmul_mmul RthR nd) by (apply HB; exact Hn). rewrite (Hu n Hn). apply mvmul_vscale_r.
+    - apply mzero_shape.
+    - intros n _. apply (BtDB_shape d h E nu mode).
+  Qed.
+End Thermo.
+
+Lemma B_dirvec2 (hx hy hz px py pz : R) k : hx <> 0 -> hy <> 0 -> (k < 2)%nat ->
+  mvmul (B_at 2 [hx; hy; hz] [px; py; pz]) (dirvec 2 4 k) = [0; 0; 0].
+Proof.
+  intros Hx Hy Hk. do 2 (destruct k as [|k]; [unfold dirvec, unitv; elem_unfold; list_eq ltac:(field; auto)|]). lia.
+Qed.
+
+Lemma B_dirvec3 (hx hy hz px py pz : R) k : hx <> 0 -> hy <> 0 -> hz <> 0 -> (k < 3)%nat ->
+  mvmul (B_at 3 [hx; hy; hz] [px; py; pz]) (dirvec 3 8 k) = [0; 0; 0; 0; 0; 0].
+Proof.
+  intros Hx Hy Hz Hk. do 3 (destruct k as [|k]; [unfold dirvec, unitv; elem_unfold; list_eq ltac:(field; auto)|]). lia.
+Qed.
+
+(* the free thermal expansion field alpha * x restricted to an element is aff with G = alpha * I *)
+Lemma thermo2_is_K_expansion (s3 hx hy hz E nu alpha c1 c2 : R) mode : (mode = 0 \/ mode = 1)%Z -> hx <> 0 -> hy <> 0 ->
+  mvmul (stiffness_element s3 2 [hx; hy; hz] E nu mode) (aff2 [hx; hy; hz] alpha 0 0 alpha c1 c2)
+  = vscale alpha (thermo_BDPhi s3 2 [hx; hy; hz] E nu mode).
+Proof.
+  intros Hm Hx Hy. apply (K_expansion s3 2 [hx; hy; hz] E nu mode (HB2 s3 hx hy hz)).
+  intros n _. unfold gauss_pos; cbn [map seq]. rewrite B_affine2 by assumption.
+  unfold thermo_phi, vscale. cbn. rnum. repeat (apply (f_equal2 (@cons R)); [lra|]). reflexivity.
+Qed.
+
+Lemma thermo3_is_K_expansion (s3 hx hy hz E nu alpha c1 c2 c3 : R) mode : hx <> 0 -> hy <> 0 -> hz <> 0 ->
+  mvmul (stiffness_element s3 3 [hx; hy; hz] E nu mode) (aff3 [hx; hy; hz] alpha 0 0 0 alpha 0 0 0 alpha c1 c2 c3)
+  = vscale alpha (thermo_BDPhi s3 3 [hx; hy; hz] E nu mode).
+Proof.
+  intros Hx Hy Hz. apply (K_expansion s3 3 [hx; hy; hz] E nu mode (HB3 s3 hx hy hz)).
+  intros n _. unfold gauss_pos; cbn [map seq]. rewrite B_affine3 by assumption.
+  unfold thermo_phi, vscale. cbn. rnum. repeat (apply (f_equal2 (@cons R)); [lra|]). reflexivity.
+Qed.
+
+(* the nodal forces sum to zero in every direction, on every grid, for every elementwise input *)
+Theorem thermal2_self_equilibrated g (s3 hx hy hz E nu alpha : R) mode (x : list R) k :
+  wf g -> nelz g = 0%Z -> (mode = 0 \/ mode = 1)%Z -> hx <> 0 -> hy <> 0 -> length x = Z.to_nat (nel g) -> (k < 2)%nat ->
+  dot (no_response g (thermo_opmat s3 2 [hx; hy; hz] E nu alpha mode) [x]) (nodal_field g 2 (dir_field (Z.of_nat k))) = 0.
+Proof.
+  intros Hwf H2d Hmode Hx Hy Hxl Hk.
+  assert (Hnn : (0 <= nnodes g)%Z) by (pose proof (nnodes_pos g Hwf); lia).
+  set (em := thermo_opmat s3 2 [hx; hy; hz] E nu alpha mode). set (u := nodal_field g 2 (dir_field (Z.of_nat k))).
+  assert (Hkd : om_kd em = (elemnodes g * 2)%Z) by (unfold em, thermo_opmat; cbn [om_kd]; rewrite (elemnodes_2d g Hwf H2d); reflexivity).
+  assert (Hrows : Forall (fun r => length r = Z.to_nat (om_kd em)) (om_rows em)).
+  { unfold em, thermo_opmat; cbn [om_kd om_rows]. constructor; [|constructor].
+    rewrite vscale_length, (BDPhi_length s3 2). reflexivity. }
+  assert (Hu : length u = Z.to_nat (2 * nnodes g)) by (unfold u; rewrite nodal_field_length by lia; reflexivity).
+  assert (HXl : Forall (fun w => length w = Z.to_nat (nel g)) [x]) by (constructor; [exact Hxl | constructor]).
+  rewrite <- (eo_no_adjoint g em 2 [x] u Hwf ltac:(lia) Hkd Hrows Hu eq_refl HXl).
+  unfold eo_response, u. rewrite eo_ndof_field by (auto; lia). unfold eo_effective. rewrite Hkd, Z.eqb_refl.
+  unfold em at 1. cbn [om_rows thermo_opmat]. unfold op_fwd, mdot. cbn [map combine fst snd]. rewrite nsum_cons. cbn [nsum fold_right].
+  rewrite (dot_allz_r RthR); [rnum; lra|].
+  apply Forall_forall. intros v Hv. apply in_map_iff in Hv as (dce & <- & Hin).
+  unfold dofconn_all in Hin. apply in_map_iff in Hin as (e & <- & He). apply in_zrange in He.
+  change 2%Z with (Z.of_nat 2). rewrite (gather_dir g Hwf H2d 2) by (auto; lia). rewrite Nat2Z.id.
+  rewrite (dot_vscale_l RthR).
+  rewrite (BDPhi_dot_null s3 2 [hx; hy; hz] E nu mode (HB2 s3 hx hy hz)); [rnum; lra | apply D_shape2; exact Hmode |].
+  intros n _. unfold gauss_pos; cbn [map seq]. rewrite B_dirvec2 by assumption. repeat constructor.
+Qed.
+
+Theorem thermal3_self_equilibrated g (s3 hx hy hz E nu alpha : R) mode (x : list R) k :
+  wf g -> nelz g <> 0%Z -> hx <> 0 -> hy <> 0 -> hz <> 0 -> length x = Z.to_nat (nel g) -> (k < 3)%nat ->
+  dot (no_response g (thermo_opmat s3 3 [hx; hy; hz] E nu alpha mode) [x]) (nodal_field g 3 (dir_field (Z.of_nat k))) = 0.
+Proof.
+  intros Hwf H3d Hx Hy Hz Hxl Hk.
+  assert (Hnn : (0 <= nnodes g)%Z) by (pose proof (nnodes_pos g Hwf); lia).
+  set (em := thermo_opmat s3 3 [hx; hy; hz] E nu alpha mode). set (u := nodal_field g 3 (dir_field (Z.of_nat k))).
+  assert (Hkd : om_kd em = (elemnodes g * 3)%Z) by (unfold em, thermo_opmat; cbn [om_kd]; rewrite (elemnodes_3d g Hwf H3d); reflexivity).
+  assert (Hrows : Forall (fun r => length r = Z.to_nat (om_kd em)) (om_rows em)).
+  { unfold em, thermo_opmat; cbn [om_kd om_rows]. constructor; [|constructor].
+    rewrite vscale_length, (BDPhi_length s3 3). reflexivity. }
+  assert (Hu : length u = Z.to_nat (3 * nnodes g)) by (unfold u; rewrite nodal_field_length by lia; reflexivity).
+  assert (HXl : Forall (fun w => length w = Z.to_nat (nel g)) [x]) by (constructor; [exact Hxl | constructor]).
+  rewrite <- (eo_no_adjoint g em 3 [x] u Hwf ltac:(lia) Hkd Hrows Hu eq_refl HXl).
+  unfold eo_response, u. rewrite eo_ndof_field by (auto; lia). unfold eo_effective. rewrite Hkd, Z.eqb_refl.
+  unfold em at 1. cbn [om_rows thermo_opmat]. unfold op_fwd, mdot. cbn [map combine fst snd]. rewrite nsum_cons. cbn [nsum fold_right].
+  rewrite (dot_allz_r RthR); [rnum; lra|].
+  apply Forall_forall. intros v Hv. apply in_map_iff in Hv as (dce & <- & Hin).
+  unfold dofconn_all in Hin. apply in_map_iff in Hin as (e & <- & He). apply in_zrange in He.
+  change 3%Z with (Z.of_nat 3). rewrite (gather_dir3 g Hwf H3d 3) by (auto; lia). rewrite Nat2Z.id.
+  rewrite (dot_vscale_l RthR).
+  rewrite (BDPhi_dot_null s3 3 [hx; hy; hz] E nu mode (HB3 s3 hx hy hz)); [rnum; lra | apply D_shape3 |].
+  intros n _. unfold gauss_pos; cbn [map seq]. rewrite B_dirvec3 by assumption. repeat constructor.
+Qed.
+
+(* ================================================================== energy *)
+(* sum_e x_e * V * sigma_e . eps_e  for element arrays given by their rows (components x elements) *)
+Definition col_dot (T S : list (list R)) (e : nat) : R :=
+  nsum (map (fun p => nth e (fst p) 0 * nth e (snd p) 0) (combine T S)).
+Definition energy_sum (x : list R) (V : R) (T S : list (list R)) : R :=
+  nsum (map (fun e => nth e x 0 * V * col_dot T S e) (seq 0 (length x))).
+
+Lemma nth_repeat_lt (v : R) n e : (e < n)%nat -> nth e (repeat v n) 0 = v.
+Proof. revert e; induction n as [|n IH]; intros [|e] He; cbn; try lia; auto. apply IH. lia. Qed.
+
+Lemma col_dot_const (sg ep : list R) n e : (e < n)%nat ->
+  col_dot (map (fun v => repeat v n) sg) (map (fun v => repeat v n) ep) e = dot sg ep.
+Proof.
+  intros He. unfold col_dot, dot. revert ep. induction sg as [|s sg IH]; intros [|p ep]; cbn [map combine]; try reflexivity.
+  rewrite !nsum_cons. cbn [fst snd]. rewrite IH. rewrite !nth_repeat_lt by exact He. reflexivity.
+Qed.
+
+Lemma energy_sum_const x V (sg ep : list R) :
+  energy_sum x V (map (fun v => repeat v (length x)) sg) (map (fun v => repeat v (length x)) ep) = V * dot sg ep * nsum x.
+Proof.
+  unfold energy_sum.
+  rewrite (nsum_map_ext _ (fun e => nth e x 0 * (V * dot sg ep))).
+  - induction x as [|a x IH]; [cbn; lra|].
+    cbn [length seq map nth]. rewrite <- seq_shift, map_map. rewrite !nsum_cons. cbn [nth] in *. rewrite IH. rnum. lra.
+  - intros e He. apply in_seq in He. rewrite col_dot_const by lia. lra.
+Qed.
+
+(* element level: u_e^T K_e u_e = V * eps^T D eps  with the TRUE strain eps = (G11, G22, G12+G21) *)
+Lemma energy2_elem (s3 hx hy hz E nu g11 g12 g21 g22 c1 c2 : R) mode : (mode = 0 \/ mode = 1)%Z -> hx <> 0 -> hy <> 0 ->
+  quad (stiffness_element s3 2 [hx; hy; hz] E nu mode) (aff2 [hx; hy; hz] g11 g12 g21 g22 c1 c2)
+  = hx * hy * quad (material_D 2 [hx; hy; hz] E nu mode) [g11; g22; g12 + g21].
+Proof.
+  intros Hm Hx Hy. unfold quad at 1. rewrite (stiffness2_bil s3 hx hy hz E nu mode Hm).
+  rewrite (nsum_map_ext _ (fun _ => hx / 2 * (hy / 2) * quad (material_D 2 [hx; hy; hz] E nu mode) [g11; g22; g12 + g21])).
+  - change (node_numbering 2) with [(-1, -1, -1); (1, -1, -1); (-1, 1, -1); (1, 1, -1)]%Z.
+    cbn [map]. rewrite !nsum_cons. cbn [nsum fold_right]. rnum. field.
+  - intros n _. unfold gauss_pos; cbn [map seq]. rewrite B_affine2 by assumption.
+    unfold quad. match goal with |- context [bil ?DD ?a ?b] => generalize (bil DD a b); intros q end.
+    unfold gauss_w, nprod, two. cbn. rnum. field.
+Qed.
+
+Lemma energy3_elem (s3 hx hy hz E nu g11 g12 g13 g21 g22 g23 g31 g32 g33 c1 c2 c3 : R) mode : hx <> 0 -> hy <> 0 -> hz <> 0 ->
+  quad (stiffness_element s3 3 [hx; hy; hz] E nu mode) (aff3 [hx; hy; hz] g11 g12 g13 g21 g22 g23 g31 g32 g33 c1 c2 c3)
+  = hx * hy * hz * quad (material_D 3 [hx; hy; hz] E nu mode) [g11; g22; g33; g23 + g32; g13 + g31; g12 + g21].
+Proof.
+  intros Hx Hy Hz. unfold quad at 1. rewrite (stiffness3_bil s3 hx hy hz E nu mode).
+  rewrite (nsum_map_ext _ (fun _ => hx / 2 * (hy / 2) * (hz / 2) *
+             quad (material_D 3 [hx; hy; hz] E nu mode) [g11; g22; g33; g23 + g32; g13 + g31; g12 + g21])).
+  - change (node_numbering 3) with [(-1, -1, -1); (1, -1, -1); (-1, 1, -1); (1, 1, -1); (-1, -1, 1); (1, -1, 1); (-1, 1, 1); (1, 1, 1)]%Z.
+    cbn [map]. rewrite !nsum_cons. cbn [nsum fold_right]. rnum. field.
+  - intros n _. unfold gauss_pos; cbn [map seq]. rewrite B_affine3 by assumption.
+    unfold quad. match goal with |- context [bil ?DD ?a ?b] => generalize (bil DD a b); intros q end.
+    unfold gauss_w, nprod, two. cbn. rnum. field.
+Qed.
+
+(* doubled-shear bookkeeping of the module outputs: sigma_m . eps_m = eps^T D eps + 3 * (shear part of the energy) *)
+Lemma energy2_bookkeeping (hx hy hz E nu a b gm : R) mode : (mode = 0 \/ mode = 1)%Z ->
+  let D := material_D 2 [hx; hy; hz] E nu mode in
+  dot (mvmul D [a; b; 2 * gm]) [a; b; 2 * gm] = quad D [a; b; gm] + 3 * quad D [0; 0; gm].
+Proof. intros [-> | ->] D; unfold D; D_unfold; ring. Qed.
+
+Lemma energy3_bookkeeping (hx hy hz E nu a b c g1 g2 g3 : R) mode :
+  let D := material_D 3 [hx; hy; hz] E nu mode in
+  dot (mvmul D [a; b; c; 2 * g1; 2 * g2; 2 * g3]) [a; b; c; 2 * g1; 2 * g2; 2 * g3]
+  = quad D [a; b; c; g1; g2; g3] + 3 * quad D [0; 0; 0; g1; g2; g3].
+Proof. intros D; unfold D; D_unfold; ring. Qed.
+
+(* global: the energy computed from the Stress/Strain outputs equals u^T K u plus three times the shear energy;
+   in particular it equals u^T K u exactly when the gradient is shear-free *)
+Theorem energy2_global g (s3 hx hy hz E nu : R) mode (bcd : R) (x : list R) g11 g12 g21 g22 c1 c2 :
+  wf g -> nelz g = 0%Z -> (mode = 0 \/ mode = 1)%Z -> s3 <> 0 -> hx <> 0 -> hy <> 0 -> length x = Z.to_nat (nel g) ->
+  let h := [hx; hy; hz] in
+  let u := nodal_field g 2 (affine_field2 g hx hy g11 g12 g21 g22 c1 c2) in
+  let D := material_D 2 h E nu mode in
+  energy_sum x (hx * hy) (eo_response g (stress_opmat s3 2 h E nu mode) u) (eo_response g (strain_opmat s3 2 h true) u)
+  = dot u (apply (to_triples (asm_ztriples g (stiffness_element s3 2 h E nu mode) None bcd x)) (Z.to_nat (asm_n g 2)) u)
+    + 3 * (hx * hy) * quad D [0; 0; g12 + g21] * nsum x.
+Proof.
+  intros Hwf H2d Hm Hs Hx Hy Hxl h u D.
+  unfold u, h. rewrite stress2_global, strain2_global_voigt by assumption. rewrite <- Hxl.
+  rewrite energy_sum_const. rewrite (energy2_bookkeeping hx hy hz E nu g11 g22 (g12 + g21) mode Hm).
+  destruct (stiffness2_asm_wf g s3 hx hy hz E nu mode None [] x Hwf H2d Hm Hxl I (Forall_nil _)) as [(_ & Hn & Hsh & _) Hndof].
+  assert (Hnn : (0 <= nnodes g)%Z) by (pose proof (nnodes_pos g Hwf); lia).
+  pose proof (asm_bilinear RthR g (stiffness_element s3 2 [hx; hy; hz] E nu mode) bcd x
+                (nodal_field g 2 (affine_field2 g hx hy g11 g12 g21 g22 c1 c2))
+                (nodal_field g 2 (affine_field2 g hx hy g11 g12 g21 g22 c1 c2))) as Hbil.
+  rewrite Hndof in Hbil. rewrite Hbil; auto; try lia; try (apply nodal_field_length; lia); try (rewrite Hndof in Hsh; exact Hsh).
+  rewrite (nsum_map_ext _ (fun p => snd p * (hx * hy * quad (material_D 2 [hx; hy; hz] E nu mode) [g11; g22; g12 + g21]))).
+  - rewrite nsum_combine_const by (rewrite dofconn_all_length; symmetry; exact Hxl). unfold D, h. ring.
+  - intros [row xe] Hin. cbn [fst snd]. apply in_combine_l in Hin. unfold dofconn_all in Hin.
+    apply in_map_iff in Hin as (e & <- & He). apply in_zrange in He.
+    rewrite (gather_affine2 g hx hy hz Hwf H2d) by exact He.
+    match goal with |- context [bil ?K ?a ?a] => change (bil K a a) with (quad K a) end.
+    rewrite energy2_elem by assumption. reflexivity.
+Qed.
+
+Theorem energy3_global g (s3 hx hy hz E nu : R) mode (bcd : R) (x : list R) g11 g12 g13 g21 g22 g23 g31 g32 g33 c1 c2 c3 :
+  wf g -> nelz g <> 0%Z -> s3 <> 0 -> hx <> 0 -> hy <> 0 -> hz <> 0 -> length x = Z.to_nat (nel g) ->
+  let h := [hx; hy; hz] in
+  let u := nodal_field g 3 (affine_field3 g hx hy hz g11 g12 g13 g21 g22 g23 g31 g32 g33 c1 c2 c3) in
+  let D := material_D 3 h E nu mode in
+  energy_sum x (hx * hy * hz) (eo_response g (stress_opmat s3 3 h E nu mode) u) (eo_response g (strain_opmat s3 3 h true) u)
+  = dot u (apply (to_triples (asm_ztriples g (stiffness_element s3 3 h E nu mode) None bcd x)) (Z.to_nat (asm_n g 3)) u)
+    + 3 * (hx * hy * hz) * quad D [0; 0; 0; g23 + g32; g13 + g31; g12 + g21] * nsum x.
+Proof.
+  intros Hwf H3d Hs Hx Hy Hz Hxl h u D.
+  unfold u, h. rewrite stress3_global, strain3_global_voigt by assumption. rewrite <- Hxl.
+  rewrite energy_sum_const. rewrite (energy3_bookkeeping hx hy hz E nu g11 g22 g33 (g23 + g32) (g13 + g31) (g12 + g21) mode).
+  destruct (stiffness3_asm_wf g s3 hx hy hz E nu mode None [] x Hwf H3d Hxl I (Forall_nil _)) as [(_ & Hn & Hsh & _) Hndof].
+  assert (Hnn : (0 <= nnodes g)%Z) by (pose proof (nnodes_pos g Hwf); lia).
+  pose proof (asm_bilinear RthR g (stiffness_element s3 3 [hx; hy; hz] E nu mode) bcd x
+                (nodal_field g 3 (affine_field3 g hx hy hz g11 g12 g13 g21 g22 g23 g31 g32 g33 c1 c2 c3))
+                (nodal_field g 3 (affine_field3 g hx hy hz g11 g12 g13 g21 g22 g23 g31 g32 g33 c1 c2 c3))) as Hbil.
+  rewrite Hndof in Hbil. rewrite Hbil; auto; try lia; try (apply nodal_field_length; lia); try (rewrite Hndof in Hsh; exact Hsh).
+  rewrite (nsum_map_ext _ (fun p => snd p * (hx * hy * hz * quad (material_D 3 [hx; hy; hz] E nu mode)
+                                                        [g11; g22; g33; g23 + g32; g13 + g31; g12 + g21]))).
+  - rewrite nsum_combine_const by (rewrite dofconn_all_length; symmetry; exact Hxl). unfold D, h. ring.
+  - intros [row xe] Hin. cbn [fst snd]. apply in_combine_l in Hin. unfold dofconn_all in Hin.
+    apply in_map_iff in Hin as (e & <- & He). apply in_zrange in He.
+    rewrite (gather_affine3 g hx hy hz Hwf H3d) by exact He.
+    match goal with |- context [bil ?K ?a ?a] => change (bil K a a) with (quad K a) end.
+    rewrite energy3_elem by assumption. reflexivity.
+Qed.
+
+(* ================================================================== corollaries: shear-free energy identity, refutations *)
+Theorem energy2_shear_free g (s3 hx hy hz E nu : R) mode (bcd : R) (x : list R) g11 g12 g21 g22 c1 c2 :
+  wf g -> nelz g = 0%Z -> (mode = 0 \/ mode = 1)%Z -> s3 <> 0 -> hx <> 0 -> hy <> 0 -> length x = Z.to_nat (nel g) ->
+  g12 + g21 = 0 ->
+  let h := [hx; hy; hz] in
+  let u := nodal_field g 2 (affine_field2 g hx hy g11 g12 g21 g22 c1 c2) in
+  energy_sum x (hx * hy) (eo_response g (stress_opmat s3 2 h E nu mode) u) (eo_response g (strain_opmat s3 2 h true) u)
+  = dot u (apply (to_triples (asm_ztriples g (stiffness_element s3 2 h E nu mode) None bcd x)) (Z.to_nat (asm_n g 2)) u).
+Proof.
+  intros Hwf H2d Hm Hs Hx Hy Hxl Hg h u. unfold u, h.
+  rewrite (energy2_global g s3 hx hy hz E nu mode bcd x g11 g12 g21 g22 c1 c2) by assumption. rewrite Hg.
+  replace (quad (material_D 2 [hx; hy; hz] E nu mode) [0; 0; 0]) with 0 by (destruct Hm as [-> | ->]; D_unfold; ring).
+  ring.
+Qed.
+
+Theorem energy3_shear_free g (s3 hx hy hz E nu : R) mode (bcd : R) (x : list R) g11 g12 g13 g21 g22 g23 g31 g32 g33 c1 c2 c3 :
+  wf g -> nelz g <> 0%Z -> s3 <> 0 -> hx <> 0 -> hy <> 0 -> hz <> 0 -> length x = Z.to_nat (nel g) ->
+  g23 + g32 = 0 -> g13 + g31 = 0 -> g12 + g21 = 0 ->
+  let h := [hx; hy; hz] in
+  let u := nodal_field g 3 (affine_field3 g hx hy hz g11 g12 g13 g21 g22 g23 g31 g32 g33 c1 c2 c3) in
+  energy_sum x (hx * hy * hz) (eo_response g (stress_opmat s3 3 h E nu mode) u) (eo_response g (strain_opmat s3 3 h true) u)
+  = dot u (apply (to_triples (asm_ztriples g (stiffness_element s3 3 h E nu mode) None bcd x)) (Z.to_nat (asm_n g 3)) u).
+Proof.
+  intros Hwf H3d Hs Hx Hy Hz Hxl G1 G2 G3 h u. unfold u, h.
+  rewrite (energy3_global g s3 hx hy hz E nu mode bcd x g11 g12 g13 g21 g22 g23 g31 g32 g33 c1 c2 c3) by assumption.
+  rewrite G1, G2, G3.
+  replace (quad (material_D 3 [hx; hy; hz] E nu mode) [0; 0; 0; 0; 0; 0]) with 0 by (D_unfold; ring).
+  ring.
+Qed.
+
+Lemma sqrt3_nz : sqrt 3 <> 0.
+Proof. assert (0 < sqrt 3) by (apply sqrt_lt_R0; lra). lra. Qed.
+
+(* u = (y, 0) on the unit square: engineering shear 1, Strain(voigt=True) returns 2 *)
+Theorem strain2_shear_refuted :
+  exists g (s3 hx hy hz g11 g12 g21 g22 c1 c2 : R),
+    wf g /\ nelz g = 0%Z /\ s3 <> 0 /\ hx <> 0 /\ hy <> 0 /\
+    nth 2 (eo_response g (strain_opmat s3 2 [hx; hy; hz] true) (nodal_field g 2 (affine_field2 g hx hy g11 g12 g21 g22 c1 c2))) []
+    <> repeat (g12 + g21) (Z.to_nat (nel g)).
+Proof.
+  exists {| nelx := 1; nely := 1; nelz := 0 |}, (sqrt 3), 1, 1, 1, 0, 1, 0, 0, 0, 0.
+  assert (Hwf : wf {| nelx := 1; nely := 1; nelz := 0 |}) by (unfold wf; cbn; lia).
+  refine (conj Hwf (conj eq_refl (conj sqrt3_nz (conj _ (conj _ _))))); try lra.
+  rewrite strain2_global_voigt by (try exact Hwf; try exact sqrt3_nz; try reflexivity; lra).
+  cbn. intros H. inversion H. lra.
+Qed.
+
+Theorem strain3_shear_refuted :
+  exists g (s3 hx hy hz g11 g12 g13 g21 g22 g23 g31 g32 g33 c1 c2 c3 : R),
+    wf g /\ nelz g <> 0%Z /\ s3 <> 0 /\ hx <> 0 /\ hy <> 0 /\ hz <> 0 /\
+    nth 5 (eo_response g (strain_opmat s3 3 [hx; hy; hz] true)
+                       (nodal_field g 3 (affine_field3 g hx hy hz g11 g12 g13 g21 g22 g23 g31 g32 g33 c1 c2 c3))) []
+    <> repeat (g12 + g21) (Z.to_nat (nel g)).
+Proof.
+  exists {| nelx := 1; nely := 1; nelz := 1 |}, (sqrt 3), 1, 1, 1, 0, 1, 0, 0, 0, 0, 0, 0, 0, 0, 0, 0.
+  assert (Hwf : wf {| nelx := 1; nely := 1; nelz := 1 |}) by (unfold wf; cbn; lia).
+  assert (H3 : nelz {| nelx := 1; nely := 1; nelz := 1 |} <> 0%Z) by (cbn; lia).
+  refine (conj Hwf (conj H3 (conj sqrt3_nz (conj _ (conj _ (conj _ _)))))); try lra.
+  rewrite strain3_global_voigt by (try exact Hwf; try exact sqrt3_nz; try exact H3; lra).
+  cbn. intros H. inversion H. lra.
+Qed.
